@@ -130,6 +130,16 @@ func (w *world) op(name string) func() any {
 			}
 			return px.Exec(t, c04.MkCtx(0)).String()
 		}
+	case name == "compile-opts":
+		// another template of the same set is compiled and gets its own options (documented use of Template.Options)
+		return func() any {
+			t, err := w.set.FromString("o\n{% if 1 %}\n y{% endif %}")
+			if err != nil {
+				return "ERR " + err.Error()
+			}
+			t.Options.TrimBlocks, t.Options.LStripBlocks = true, true
+			return px.Exec(t, c04.MkCtx(0)).String()
+		}
 	case name == "compile-file":
 		return func() any {
 			t, err := w.set.FromFile("/other")
@@ -331,10 +341,10 @@ func run(r *eng.Runner) {
 	}
 	r.Group("exec-compile", "c05.case", "one thread executes a compiled template while another compiles (FromString / FromFile) or fetches (FromCache) in the same set; cache operations against each other")
 	for i, n := range names {
-		if n != "text" && n != "include-lazy" && n != "include" && n != "cycle" && n != "extends" && n != "macro" && r.Quick() {
+		if n != "text" && n != "include-lazy" && n != "include" && n != "cycle" && n != "extends" && n != "macro" && n != "whitespace" && r.Quick() {
 			continue
 		}
-		for _, ops := range [][]string{{"exec:0", "compile-string"}, {"exec:1", "compile-file"}, {"exec:0", "fromcache:/other"}} {
+		for _, ops := range [][]string{{"exec:0", "compile-string"}, {"exec:1", "compile-file"}, {"exec:0", "fromcache:/other"}, {"exec:0", "compile-opts"}} {
 			r.Do(&Case{Files: files[i], Ops: ops, Bound: bound, MaxSched: maxS, Label: "exec-compile:" + n})
 		}
 	}
